@@ -6,8 +6,9 @@ Case forms (all JSON-able):
   {'op':'unique','ft':FT,'level':LV,'col':[...],'flags':[ri,rv,rc]}
   {'op':'isin','ft':FT,'level':LV,'col':[...],'tests':[...]|None,'tkind':'list'|'set'|'array','via':'method'|'module'}
   FT = 'istr' (col = list of code-point lists) | 'fstr' (col = list of byte lists, 'strlen') |
-       'int32' | 'int8' | 'bool' | 'float32' | 'cat' | 'ts' | 'int64' | 'float64' | 'uint16'
-       (col = ints; float/ts values are quarter units); 'tkind' may also be 'tuple'
+       'int8' | 'int16' | 'int32' | 'int64' | 'uint8' | 'uint16' | 'uint32' | 'uint64' | 'bool' | 'float32' | 'float64' | 'cat' | 'ts'
+       (col = ints; float/ts values are quarter units); 'tkind' may also be 'tuple'; 'tdtype' (with tkind 'array') forces
+       the dtype of the test ndarray; 'keys' the values of a categorical field
   LV = 'ops' (istr only: the operations.py functions on (indices, values)) | 'mem' (…MemField) | 'h5' (HDF5 field)
   istr/ops cases may carry 'raw': {'indices':[…],'values':[…]} instead of 'col' (malformed stream) and
   'idx0': 1 (an empty column stored as indices=[0] instead of []).
@@ -48,18 +49,30 @@ RULE = ('exhaustive small scope: unique on every indexed-string column of length
         'per-element loop, plus collection sizes around the switch-over 10 * rows ** 0.145 for 1..100 rows; (d) every '
         'small integer literal that is new in the tree under test (harness/hot.py) is planted as byte length, row count, '
         'distinct count and test-set size (K-1, K, K+1, 2K-1, 2K, 2K+1, 3K), and the random budgets are tripled when any '
-        'library source differs from the recorded tree. HDF5-backed cases cost ~5 ms each, '
+        'library source differs from the recorded tree; (e) implicit dtype coercions: for every integer dtype (int8 .. int64, '
+        'uint8 .. uint64, categorical) pairs (row value v, test value t != v) that collide under binary64 / binary32 / '
+        'binary16 rounding (beyond 2^53, 2^24, 2^11, at the int64 / uint64 extremes), under two\'s complement '
+        'reinterpretation at the column\'s width (int64 <-> uint64) and under narrowing to 8 / 16 / 32 bits, each looked up '
+        'alone, with a None entry, with a small value, inside 24 further members (narrow and wide), together with v, as '
+        'list / set / tuple / ndarray (inferred dtype, every exact explicit integer dtype, object); all pairs at once; '
+        'structured random mixtures; the 64-bit small scope (all columns <= 2 over 4 values x all 128 subsets of 7 test '
+        'values incl. None). HDF5-backed cases cost ~5 ms each, '
         'hence the smaller bounds at that level. Non-trivial = reaches a planted feature.')
 EXHAUSTIVE = {'quick': True, 'thorough': True}
 TRUSTED = ['numpy sort/argsort of str arrays (code-point order, trailing NULs insignificant), np.unique, np.isin and '
            'CPython\'s UTF-8 codec are defined in Gallina (Model/Unique.v) and tied to the real ones by this '
            'correspondence only',
            'for non-indexed field types the model of the numpy dispatch IS the specification; the theorem for them is '
-           'definitional and the evidence is the differential run']
+           'definitional and the evidence is the differential run; for integer columns the model is the repaired '
+           'FieldDataOps._exact_integer_tests (None and out-of-dtype integers dropped) followed by np.isin on two arrays '
+           'of one integer dtype = membership (theorem isin_int_exact)']
 ASSUMPTIONS = ['strings contain no NUL code point at their end (numpy U/S dtypes drop trailing NULs: finding F-C14b)',
                'no NaN in float/timestamp columns',
-               'test-set entries are None or values of the field\'s kind (integers for integer / bool / categorical fields, '
-               'also just outside the column dtype; quarter-unit floats; bytes; str); containers list, set, ndarray, tuple']
+               'test-set entries are None or values of the field\'s kind (integers of any magnitude for integer / bool / '
+               'categorical fields, inside or outside the column dtype, also beyond uint64; quarter-unit floats; bytes; str); '
+               'containers list, set, tuple, ndarray (of the dtype numpy infers when that holds the integers exactly, of an '
+               'explicit integer dtype, or of dtype object); a float among the test values of an integer column is outside '
+               'the domain (numpy compares in binary64 then)']
 TECHNIQUE = ('Coq proof (faithful model of the indexed-string kernels and their Python drivers = sort/unique/membership '
              'specification over UTF-8 bytes) + exhaustive small-scope differential correspondence against /repo')
 LEVEL_TEXT = ('Theorems in coq/Props/C14.v prove for all columns, flag combinations and test sets that the Gallina model '
@@ -69,6 +82,13 @@ LEVEL_TEXT = ('Theorems in coq/Props/C14.v prove for all columns, flag combinati
               '/repo by running the extracted model and the real functions / fields on the same generated cases.')
 LEVEL_NOTE = ('Trusted: Coq kernel, extraction, harness. numpy and the UTF-8 codec are modelled in Gallina, not verified. '
               'Non-indexed field types delegate to numpy: for them only the correspondence speaks.')
+
+# integer field types: the range of the column's dtype ('cat' = categorical with int8 values)
+INT_RANGE = {'int8': (-2 ** 7, 2 ** 7 - 1), 'int16': (-2 ** 15, 2 ** 15 - 1), 'int32': (-2 ** 31, 2 ** 31 - 1),
+             'int64': (-2 ** 63, 2 ** 63 - 1), 'uint8': (0, 2 ** 8 - 1), 'uint16': (0, 2 ** 16 - 1),
+             'uint32': (0, 2 ** 32 - 1), 'uint64': (0, 2 ** 64 - 1), 'cat': (-2 ** 7, 2 ** 7 - 1)}
+INT_BITS = {'int8': 8, 'int16': 16, 'int32': 32, 'int64': 64, 'uint8': 8, 'uint16': 16, 'uint32': 32, 'uint64': 64,
+            'cat': 8}
 
 _np = _ops = _fields = _session = _df = None
 _ctr = [0]
@@ -184,9 +204,16 @@ def _tests_obj(case):
     if kind == 'tuple':
         return tuple(l)
     if kind == 'array':
+        if case.get('tdtype'):
+            return np.array(l, dtype=case['tdtype'])
         if any(x is None for x in l) or not l:
             return np.array(l, dtype=object)
-        return np.array(l)
+        a = np.array(l)
+        if a.dtype.kind == 'f' and ft in INT_RANGE:
+            # numpy types a mixture of values >= 2**63 and smaller ones float64: that array would not hold the
+            # case's integers any more; hand over the integers themselves
+            a = np.array(l, dtype=object)
+        return a
     return l
 
 
@@ -265,6 +292,9 @@ def to_val(case):
     if ft == 'istr':
         ind, vals = storage(case)
         return [3, ind, vals, ([] if tests is None else [[_opt(t) for t in tests]])]
+    if ft in INT_RANGE:      # integer column: the repaired code filters the test values by the column's dtype
+        lo, hi = INT_RANGE[ft]
+        return [5, lo, hi, case['col'], [_opt(t) for t in tests]]
     return [4, 1 if ft == 'fstr' else 0, case['col'], [_opt(t) for t in tests]]
 
 
@@ -328,7 +358,7 @@ def features(case, model):
             f.append('row-lengths-congruent-mod-256')
     if ft == 'istr' and any(len(c) != len(r) and len(r) >= 256 for c, r in zip(col, rows)):
         f.append('long-row-chars!=bytes')
-    if ft == 'int64' and any(abs(r) > 2 ** 53 for r in rows): f.append('beyond-2^53')
+    if ft in ('int64', 'uint64') and any(abs(r) > 2 ** 53 for r in rows): f.append('beyond-2^53')
     if ft == 'istr':
         if any(len(r) == 0 for r in rows): f.append('empty-string')
         if any(any(b >= 128 for b in r) for r in rows): f.append('multi-byte')
@@ -375,8 +405,9 @@ def features(case, model):
         if any(hit): f.append('row-hit')
         if not all(hit) and rows: f.append('row-miss')
         if len(set(tk)) >= 256: f.append('tests>=256-distinct')
-        rg = {'int8': (-128, 127), 'cat': (-128, 127), 'uint16': (0, 65535), 'int32': (-2 ** 31, 2 ** 31 - 1),
-              'bool': (0, 1)}.get(ft)
+        rg = dict(INT_RANGE, bool=(0, 1)).get(ft)
+        if ft in INT_RANGE or ft in ('float32', 'float64', 'ts'):
+            f += _coercion_features(case, rows, tk, len(real) < len(tests))
         if rg and any(not (rg[0] <= t <= rg[1]) for t in tk): f.append('test-value-outside-column-dtype')
         if len(set(tk)) >= max(_near_sort_threshold(len(rows)), 1):
             f.append('tests>=numpy-sort-threshold')     # np.isin leaves its per-element loop (non-object dtypes)
@@ -396,6 +427,62 @@ def features(case, model):
             if any(r < min(tk) for r in rows): f.append('row-below-all-tests')
             if any(r > max(tk) for r in rows): f.append('row-above-all-tests')
     return f
+
+
+def _f32(z):
+    import struct
+    try:
+        return struct.unpack('f', struct.pack('f', float(z)))[0]
+    except OverflowError:
+        return float('inf') if z > 0 else float('-inf')
+
+
+def _collide(a, b):
+    """the coercions under which the distinct integers a, b become equal"""
+    out = []
+    if float(a) == float(b): out.append('float64')
+    if _f32(a) == _f32(b): out.append('float32')
+    for w in (64, 32, 16, 8):
+        if (a - b) % (1 << w) == 0:
+            out.append('mod-2^%d' % w)
+            break
+    return out
+
+
+def _coercion_features(case, rows, tk, has_none):
+    """a row that is NOT a member but would be one under an implicit coercion of the column or of the test values
+    (binary64 / binary32 rounding, two's complement reinterpretation or narrowing at 64 / 32 / 16 / 8 bits)"""
+    ft = case['ft']
+    if ft not in INT_RANGE:         # float columns hold quarter units: compare the values
+        if len(rows) * len(tk) > 4000:
+            return []
+        rows = [r / 4 for r in rows]
+        tk = [t / 4 for t in tk]
+    tks = set(tk)
+    if len(rows) * len(tk) > 40000:
+        return []
+    kinds = set()
+    for r in set(rows):
+        if r in tks:
+            continue
+        for t in tks:
+            if ft in INT_RANGE:
+                kinds.update(_collide(r, t))
+            elif _f32(r) == _f32(t):
+                kinds.add('float32')
+    out = []
+    tkind = case.get('tkind', 'list') + (':' + case['tdtype'] if case.get('tdtype') else '')
+    for kd in sorted(kinds):
+        out.append('nonmember-row-collides-under:' + kd)
+        out.append('nonmember-row-collides-under:%s%s' % (kd, '+None' if has_none else '-noNone'))
+    if kinds:
+        out.append('collision:%s:%s:%s' % (ft, tkind, 'None' if has_none else 'noNone'))
+        if any(abs(x) > 2 ** 53 for x in tks) and ft in INT_RANGE: out.append('test-value-beyond-2^53')
+    if ft in INT_RANGE:
+        lo, hi = INT_RANGE[ft]
+        if any(r in (lo, hi) for r in rows) and INT_BITS[ft] == 64: out.append('row-at-64-bit-extreme')
+        if any(abs(r) > 2 ** 53 for r in rows): out.append('row-beyond-2^53')
+    return out
 
 
 _ADMIN = ('unique:', 'isin:', 'flags:', 'tkind:', 'via:')
@@ -501,6 +588,14 @@ def _padding(ft, m, wide, rng=None):
     m = min(m, 1800)        # every value below stays inside its dtype (and exact in float32)
     if ft in ('int8', 'cat'):
         return [10 + i for i in range(min(m, 100))]
+    if ft == 'uint8':
+        return [10 + i for i in range(min(m, 200))]
+    if ft == 'int16':
+        return [1000 + (17 if wide else 1) * i for i in range(m)]
+    if ft == 'uint64':      # wide: members on both sides of 2^63 (numpy types such a list float64)
+        return [2 ** 53 + 2 + i for i in range(m)] if not wide else [(2 ** 62 if i % 2 == 0 else 2 ** 63) + (2 ** 52 + 12345) * i for i in range(m)]
+    if ft == 'uint32':
+        return [100 + i for i in range(m)] if not wide else [100000 + 2000003 * i for i in range(m)]
     if ft == 'fstr':
         return [[99 + i // 12, 99 + i % 12] for i in range(m)]
     if ft in ('ts', 'float32', 'float64'):
@@ -724,6 +819,191 @@ def _gen_regions(tier, rng):
         yield dict({'op': 'isin', 'ft': ft, 'level': level, 'col': col, 'tests': t, 'tkind': kind, 'via': via}, **ex)
 
 
+# (e) implicit dtype coercions.  isin must compare the integers themselves; a defect of this class converts the test
+#     collection or the column to another dtype on some path (a None entry turned into NaN types the test values
+#     float64; numpy itself types a list mixing values >= 2^63 and smaller ones float64 and merges int64 with uint64 in
+#     float64; a cast to the column's dtype wraps).  Such a conversion is observable only on a pair (row value v,
+#     test value t != v) that it merges (theorems isin_coercion_injective / isin_coercion_collision), so for every
+#     integer dtype every plausible coercion gets its pairs, each looked up without and with a None entry, alone and
+#     inside a collection large enough for numpy's sort / table algorithms, in every container form (list, set, tuple,
+#     ndarray of the inferred dtype, of an explicit integer dtype, of dtype object).
+COERCE_FTS = ['int64', 'uint64', 'int32', 'uint32', 'int16', 'uint16', 'int8', 'uint8', 'cat']
+
+
+def _same_f64(v):
+    """integers != v that round to the same binary64 as v (nearest first)"""
+    out = []
+    for d in (1, 2, 3, 4, 255, 256, 511, 512, 1023, 1024):
+        for t in (v - d, v + d):
+            if float(t) == float(v) and t not in out:
+                out.append(t)
+    r = int(float(v))
+    if r != v and r not in out:
+        out.insert(0, r)
+    return out
+
+
+def _same_f32(v):
+    out = []
+    for d in (1, 2, 3, 4, 63, 64, 127, 128):
+        for t in (v - d, v + d):
+            if _f32(t) == _f32(v) and t not in out:
+                out.append(t)
+    return out
+
+
+def _collision_pairs(ft):
+    """[(v, t, coercion)]: v a value of the column's dtype, t != v an integer (inside or outside the dtype) that the
+    coercion merges with v"""
+    lo, hi = INT_RANGE[ft]
+    w = INT_BITS[ft]
+    pairs = []
+
+    def add(v, t, why):
+        if lo <= v <= hi and t != v and (v, t) not in [(a, b) for a, b, _ in pairs]:
+            pairs.append((v, t, why))
+    # binary64: beyond 2^53 (spacing 2), 2^54 (4), 2^62, at the extremes of the 64-bit types (spacing 1024 / 2048)
+    for v in (2 ** 53 + 1, 2 ** 53 + 3, 2 ** 53, -(2 ** 53) - 1, 2 ** 54 + 2, 2 ** 54 + 1, 2 ** 62 + 1, -(2 ** 62) - 255, hi, hi - 1,
+              hi - 1024, lo, lo + 1, lo + 513, 2 ** 63, 2 ** 63 + 1, 2 ** 63 - 1, 2 ** 63 + 2049):
+        if lo <= v <= hi and abs(v) >= 2 ** 53:
+            ts = _same_f64(v)
+            inside = [t for t in ts if lo <= t <= hi][:2]
+            outside = [t for t in ts if not (lo <= t <= hi)][:1]
+            for t in inside + outside:
+                add(v, t, 'float64')
+    # binary32: beyond 2^24
+    for v in (2 ** 24 + 1, 2 ** 24 + 3, 2 ** 24, -(2 ** 24) - 1, 2 ** 31 - 1, -(2 ** 31) + 1, 2 ** 32 - 1, 2 ** 31 + 129, 2 ** 40 + 1,
+              hi if w == 32 else 2 ** 25 + 2):
+        if lo <= v <= hi and abs(v) >= 2 ** 24:
+            for t in _same_f32(v)[:2]:
+                add(v, t, 'float32')
+    # binary16: beyond 2^11
+    if hi >= 2049:
+        add(2049, 2048, 'float16'); add(2048, 2049, 'float16'); add(4098, 4097, 'float16')
+    # two's complement reinterpretation at the column's width (int64 <-> uint64 ...), and of a wider test value
+    for v in (lo, hi, -1, 0, 5, 1 << (w - 1), (1 << (w - 1)) - 1, lo + 1, hi - 1):
+        for k in (1, -1, 2):
+            add(v, v + k * (1 << w), 'mod-2^%d' % w)
+    if w < 64:
+        add(5, 5 + 2 ** 64, 'mod-2^64'); add(hi, hi - 2 ** 64, 'mod-2^64')
+    # narrowing of the column / of both sides to a smaller width
+    for w2 in (8, 16, 32):
+        if w2 < w:
+            for v, t in ((2 ** w2 + 5, 5), (5, 2 ** w2 + 5), (2 ** (w2 - 1), -2 ** (w2 - 1)), (2 ** w2 - 1, -1), (2 ** w2, 0),
+                         (hi, hi % 2 ** w2), (hi - 2 ** w2, hi), (3 * 2 ** w2 + 7, 2 ** w2 + 7)):
+                add(v, t, 'mod-2^%d' % w2)
+    return pairs
+
+
+def _int_arrays(ft, tests):
+    """explicit ndarray dtypes that can hold the integer test values exactly (besides the one numpy infers)"""
+    if not tests or any(t is None for t in tests):
+        return ['object']
+    out = []
+    for dt in ('int8', 'uint8', 'int16', 'uint16', 'int32', 'uint32', 'int64', 'uint64'):
+        lo, hi = INT_RANGE[dt]
+        if all(lo <= t <= hi for t in tests):
+            out.append(dt)
+    # the narrowest, the 64-bit ones (signed vs unsigned against the column), and object
+    keep = out[:1] + [d for d in out if d in ('int64', 'uint64')]
+    return list(dict.fromkeys(keep)) + ['object']
+
+
+def _gen_coercion(tier, rng):
+    big = tier == 'thorough'
+    boost = 3 if hot.changed() else 1
+    k = 0
+    for ft in COERCE_FTS:
+        lo, hi = INT_RANGE[ft]
+        pairs = _collision_pairs(ft)
+        small = [s_ for s_ in (3, 0, 7) if lo <= s_ <= hi]
+
+        def mk(col, tests, kind, level, via, tdtype=None):
+            c = {'op': 'isin', 'ft': ft, 'level': level, 'col': list(col), 'tests': list(tests), 'tkind': kind, 'via': via}
+            if tdtype:
+                c['tdtype'] = tdtype
+            if ft == 'cat':
+                c['keys'] = sorted(set(col) | {0})
+            return c
+        for (v, t, why) in pairs:
+            col = [v, small[0], v] + ([t] if lo <= t <= hi else []) + [small[1]]
+            for wide in (False, True):
+                pad = [x for x in _padding(ft, 26, wide) if x != v and x != t][:24]
+                variants = [[t], [t, None], [None, small[0], t], [t, small[0]], [t] + pad, [None, t] + pad, [t, v], [v, None, t],
+                            [None]]
+                if wide:
+                    variants = variants[4:6]
+                for vi, tests in enumerate(variants):
+                    for kind in KINDS4:
+                        k += 1
+                        tt = list(tests)
+                        if len(tt) > 3:
+                            rng.shuffle(tt)
+                        yield mk(col, tt, kind, 'h5' if k % 5 == 0 else 'mem', 'module' if k % 4 == 0 else 'method')
+                    if vi in (0, 1, 4, 5):
+                        for dt in _int_arrays(ft, tests):
+                            k += 1
+                            yield mk(col, tests, 'array', 'h5' if k % 5 == 0 else 'mem', 'module' if k % 4 == 0 else 'method', dt)
+        # unique on the colliding values themselves (a coercion of the column would merge or alter them)
+        for j, (v, t, why) in enumerate(pairs):
+            if lo <= t <= hi:
+                k += 1
+                c = {'op': 'unique', 'ft': ft, 'level': 'h5' if k % 5 == 0 else 'mem', 'col': [v, t, small[0], v],
+                     'flags': [1, 1, 1] if j % 2 == 0 else FLAGS8[j % 8]}
+                if ft == 'cat':
+                    c['keys'] = sorted({v, t, small[0], 0})
+                yield c
+        # all pairs at once: every v in the column, every t looked up
+        vs = list(dict.fromkeys(v for v, _, _ in pairs))
+        ts_ = list(dict.fromkeys(t for _, t, _ in pairs if t not in vs))
+        for none in (0, 1):
+            for kind in KINDS4:
+                for level in ('mem', 'h5'):
+                    k += 1
+                    yield mk(vs + small, ts_ + [None] * none, kind, level, 'module' if k % 2 else 'method')
+        # structured random: some pairs, rows with duplicates, a random part of the partners looked up
+        for _ in range((2000 if big else 150) * boost):
+            ps = rng.sample(pairs, min(len(pairs), rng.randint(1, 4)))
+            vals = [v for v, _, _ in ps] + [t for _, t, _ in ps if lo <= t <= hi and rng.random() < 0.5] + small[:2]
+            col = [rng.choice(vals) for _ in range(rng.choice([1, 2, 3, 5, 8, 12, 30]))]
+            tests = [t for _, t, _ in ps if rng.random() < 0.8] + [v for v, _, _ in ps if rng.random() < 0.25]
+            m = rng.choice([0, 0, 2, 12, 24, 40])
+            tests += [x for x in _padding(ft, m + 2, rng.random() < 0.5) if x not in vals][:m]
+            if rng.random() < 0.5:
+                tests += [None] * rng.choice([1, 1, 2])
+            kind = rng.choice(KINDS4)
+            if rng.random() < 0.3 and kind != 'set':
+                tests += tests[:2]
+            rng.shuffle(tests)
+            tdt = None
+            if kind == 'array' and rng.random() < 0.5:
+                tdt = rng.choice(_int_arrays(ft, tests))
+            yield mk(col, tests, kind, rng.choice(['mem', 'mem', 'h5']), rng.choice(['method', 'method', 'module']), tdt)
+    # the small scope of the 64-bit types: every column of length <= 2 over 4 values x every subset of those values, their
+    # binary64 neighbours and None, rotating list / set / ndarray / tuple (what the small scope does for the narrow types)
+    for ft, pool, extra in (('int64', [0, -2 ** 63, 2 ** 63 - 1, 2 ** 53 + 1], [None, 2 ** 53, 2 ** 63 - 2]),
+                            ('uint64', [0, 2 ** 64 - 1, 2 ** 63, 2 ** 53 + 1], [None, 2 ** 53, 2 ** 64 - 2])):
+        tp = pool + extra
+        for level in ('mem', 'h5'):
+            for n in range(0, 3 if level == 'mem' else 2):
+                for col in itertools.product(pool, repeat=n):
+                    for kk in range(0, len(tp) + 1):
+                        for sub in itertools.combinations(range(len(tp)), kk):
+                            k += 1
+                            sub2 = [tp[j] for j in sub]
+                            rng.shuffle(sub2)
+                            yield {'op': 'isin', 'ft': ft, 'level': level, 'col': list(col), 'tests': sub2, 'tkind': KINDS4[k % 4],
+                                   'via': 'module' if k % 4 == 0 else 'method'}
+    # float columns: binary32 neighbours (quarter units) with and without None
+    for ft, (v, t) in (('float32', (2 ** 26, 2 ** 26 + 4)), ('float64', (2 ** 26 + 4, 2 ** 26)), ('ts', (2 ** 26 + 4, 2 ** 26)),
+                       ('float64', (2 ** 56, 2 ** 56 + 1024)), ('ts', (2 ** 40 + 1, 2 ** 40))):
+        for tests in ([t], [t, None], [None, t, 6], [t] + _padding(ft, 24, False), [None, t] + _padding(ft, 24, True), [t, v]):
+            for kind in KINDS4:
+                k += 1
+                yield {'op': 'isin', 'ft': ft, 'level': 'h5' if k % 3 == 0 else 'mem', 'col': [v, 6, v] + ([t] if ft != 'float32' else []),
+                       'tests': list(tests), 'tkind': kind, 'via': 'module' if k % 4 == 0 else 'method'}
+
+
 def gen(tier, rng):
     """small scope + malformed stream, then the regions beyond it; the (model-)expensive region cases are spread evenly
     over the sequence because the model shards are contiguous slices of it."""
@@ -731,6 +1011,7 @@ def gen(tier, rng):
     heavy, light = [], []
     for c in _gen_regions(tier, rng):
         (heavy if _weight(c) > 600 else light).append(c)
+    light += list(_gen_coercion(tier, rng))
     base += light
     if not heavy:
         for c in base:
